@@ -86,6 +86,23 @@ func c01Gen(rng *rand.Rand, tier string) []core.Spec {
 			}
 		}
 	}
+	// a valid control message written through NextWriter by ReadFrom / io.Copy (the source reporting its
+	// end with the last bytes or separately), on the smallest and on ordinary write buffers
+	for _, server := range []bool{false, true} {
+		for _, wbuf := range []int{1, 125, 126, 1024} {
+			for _, n := range []int{0, 1, 100, 124, 125} {
+				for _, glued := range []bool{false, true} {
+					data := genWPayload(rng, n)
+					var chunks []B
+					if n > 0 {
+						chunks = []B{B(data)}
+					}
+					out = append(out, &RoundSpec{W: WriterSpec{Server: server, WBuf: wbuf, FailAt: -1, Note: "control-message-by-ReadFrom",
+						Ops: []WOp{{K: 1, Ty: 9 + n%2}, {K: 4, Chunks: chunks, Bv: glued}, {K: 5}, {K: 0, Ty: 1, Data: B("after")}}}, NMsgs: 2})
+				}
+			}
+		}
+	}
 	// the documented finding: a valid control message larger than the write buffer
 	for _, server := range []bool{false, true} {
 		out = append(out, &RoundSpec{W: WriterSpec{Server: server, WBuf: 10, FailAt: -1, Note: "control-larger-than-buffer",
